@@ -210,6 +210,20 @@ theorem key_table : ∀ p ∈ Gen.webKeys, ∀ sh al ct me : Bool,
     split <;> simp [hc]
   simp only [this, hl, newEventKey, keyRune, h5, false_and, if_false]
 
+/-- spelling of a table name in key.go's `KeyNames` (DOM spells the arrows and Escape differently, and the
+Ctrl-<letter> helper names are lower case) -/
+def canonName (n : String) : String :=
+  if n = "ArrowUp" then "Up" else if n = "ArrowDown" then "Down" else if n = "ArrowLeft" then "Left"
+  else if n = "ArrowRight" then "Right" else if n = "Escape" then "Esc" else if n = "Ctrl- " then "Ctrl-Space"
+  else match n.toList with
+    | ['C', 't', 'r', 'l', '-', c] => String.ofList ['C', 't', 'r', 'l', '-', if 'a' ≤ c ∧ c ≤ 'z' then Char.ofNat (c.toNat - 32) else c]
+    | _ => n
+
+/-- **key_table_names.**  Independent cross-check of the table itself: every entry of `WebKeyNames` (wscreen.go)
+maps its name to the key that key.go's `KeyNames` calls by that name – two tables of the source, both regenerated,
+compared by the kernel. -/
+theorem key_table_names : ∀ p ∈ Gen.webKeys, Gen.wKeyNames.lookup p.2 = some (canonName p.1) := by decide +kernel
+
 /-- **ctrl_letter.**  Ctrl alone with a key whose `Ctrl-<lowercase>` name is in the table gives that control key. -/
 theorem ctrl_letter (name : String) (k : Nat) (hk : Gen.webKeys.lookup ("Ctrl-" ++ lowerAscii name) = some k)
     (hn : name ≠ "Control" ∧ name ≠ "Alt" ∧ name ≠ "Meta" ∧ name ≠ "Shift") (hk' : k ≠ 256) :
